@@ -1,35 +1,27 @@
 /-
-  (B5, partial) validity of the matches found in the tree descent.
+  (B5) validity of the matches found in the tree descent: the executable checker and the `depth_limit = 1` case.
 
-  FULL STATEMENT (not proved here):
+  The FULL statement
 
-    theorem bt4_tree_matches_valid (hH : Hyp P c data) (script : List Nat) :
+    theorem bt4_tree_matches_valid (hA : HypA P c data) (script : List Nat) :
         let s := (runScript P c data script).1
         ∀ m ∈ (find P c data s).2.toList,
           ValidMatch data c.dict s.pos (min c.mlmax (data.size - s.pos)) m
 
-  i.e. every match reported by `find` in every reachable state is a real repetition from its FIRST byte.
+  (every match reported by `find` in every reachable state, for every depth limit, is a real repetition from its
+  FIRST byte) is proved in `Props/C01Bt4.lean` from `Proofs/Bt4Order.lean` (truncated lexicographic order,
+  reachability in the cyclic array), `Proofs/Bt4Bst.lean` (the invariant `TInv` and one step of a descent),
+  `Proofs/Bt4BstLoop.lean` (`findLoop` / `skipLoop`) and `Proofs/Bt4BstInv.lean` (reachable states, `find_bst`).
   For the matches of the tree walk the code only compares the bytes from `min(len0, len1)` on
   (`extend_match(buf, read_pos, min(len0, len1), delta, match_len_limit)`, bt4.rs:241-249); that the first
-  `min(len0, len1)` bytes agree is a consequence of the global invariant of the binary search tree:
-  for every live node `n` (a position `q` with `lz_pos - cyclic_size < e_q`) every live node reachable through
-  `tree[2*slot(n)]` is lexicographically smaller and every live node reachable through `tree[2*slot(n)+1]` is
-  larger than the suffix at `n`, where the order is only known up to the `nice_len_limit` in force when the
-  nodes were linked (nodes that agree on `nice_len_limit` bytes replace each other, bt4.rs:112-116 / :259-263),
-  subtrees are cut off by the depth limit (the writes of 0) and slots are recycled after `cyclic_size`
-  positions.  With that invariant, `len1` / `len0` are the common prefix lengths of the current suffix with
-  the closest smaller / larger ancestor on the search path, every node of the remaining subtree lies between
-  these two ancestors, and a string between two strings shares their common prefix — hence at least
-  `min(len0, len1)` bytes with the current suffix.  Missing: the definition of this bounded-order invariant
-  over the cyclic tree array and the proof that `findLoop` / `skipLoop` (both the descent and the two ways of
-  ending it) preserve it.
+  `min(len0, len1)` bytes agree is a consequence of the invariant of the binary search tree.
 
-  What IS proved:
+  This file keeps
   * `tree_matches_valid_partial`: with `depth_limit = 1` (the walk looks at the root candidate only, where
-    `len0 = len1 = 0`) every reported match is a `ValidMatch`;
-  * every reported match, for every depth, has the bounds of (B2), and the hash candidates are fully valid (B3);
+    `len0 = len1 = 0`) every reported match is a `ValidMatch` - under the weaker hypotheses `Hyp`
+    (also `nice_len = 3`, `nice_len > match_len_max`);
   * `validMatchB_sound`: the executable check `Mf.validMatchB` implies `ValidMatch`; the driver command
-    `mf.trace ... check=1` applies it to every match of every real trace, so each run is validated.
+    `mf.trace ... check=1` applies it to every match of every real trace, so each run is validated as well.
 -/
 import LzmaVerif.Proofs.Bt4Hash
 namespace LzmaVerif.Mf
